@@ -112,4 +112,30 @@ PROPS.update({
         assumptions=ENV_ASSUME),
 })
 
+SPACE_ASSUME = ENV_ASSUME + ['floats treated as reals (no rounding / overflow / NaN); float % is uninterpreted with the '
+                             'assumed contract 0 <= a % b <= b for b > 0',
+                             'extents are 0 or >= 1 (property text); world dimensions are not mutated after construction']
+
+PROPS.update({
+    'C08': dict(
+        level_text='Deductive proof, once over the integers (grid worlds, offset 1) and once over the reals (continuous '
+                   'worlds, offset 0): move lands exactly at (old + delta) % extent per positive axis when wrapping and at '
+                   'max(min(old + delta, extent - offset), 0) otherwise; move_to / add_agent accept exactly the in-range '
+                   'requests and store exactly the requested coordinates, rejections change nothing (whole-heap frame); '
+                   'remove_agent drops the position; the containment invariant InWorld is preserved by all of them.',
+        level_note='Floats as reals; float % assumed 0 <= r <= b; extents 0 or >= 1; heap typing; API-only writers.',
+        functions=['Environments.SpaceWorld.__init__', 'Environments.PositionComponent.__init__',
+                   'Environments.SpaceWorld.add_agent', 'Environments.SpaceWorld.remove_agent',
+                   'Environments.SpaceWorld.move', 'Environments.SpaceWorld.move_to'],
+        assumptions=SPACE_ASSUME),
+    'C12': dict(
+        level_text='Deductive proof (integers and reals): get_agents_at returns a fresh list that is sound, complete and in '
+                   'joining order for the filter |p - q| <= max(axis leeway, leeway) on every axis (closed bounds, any sign '
+                   'of leeways, any query point) - the min/max interval identity is discharged inside the comprehension '
+                   'law. Seam-aware behaviour in wrapping worlds is open finding F5.',
+        level_note='Floats as reals (only +, -, comparisons, min, max are used); every resident has a position component.',
+        functions=['Environments.SpaceWorld.get_agents_at'],
+        assumptions=SPACE_ASSUME),
+})
+
 NOT_APPLICABLE = {}
